@@ -257,6 +257,9 @@ type c19Outcome struct {
 // c19Run executes one scenario against module m (already in its start state)
 // whose sequential text is S.
 func c19Run(sc *C19Step, m *ir.Module, S string) *c19Outcome {
+	if c19StdKinds[sc.Kind] {
+		return c19RunStd(sc, m, S)
+	}
 	injected := injectedError(sc)
 	w := &simWriter{k: sc.K, shape: sc.Shape, chunk: sc.Chunk, err: injected, lateErr: errors.New("late error: Write called after a failed Write")}
 	var n int64
@@ -424,6 +427,7 @@ func c19Search() {
 			continue
 		}
 		runEpisode := func(sc *C19Scenario) {
+			curScenario = sc
 			bad, badStep, outs, skip := c19Episode(sc, src, S)
 			if skip != "" {
 				sum.Skipped[skip]++
@@ -450,7 +454,9 @@ func c19Search() {
 					sum.Counters["healthy writer"]++
 				}
 				distinct.add(hash64(sc.Module, sc.Start, st.Shape, fmt.Sprint(st.K), fmt.Sprint(st.Chunk), st.Kind))
-				if st.Kind != "" {
+				if c19StdKinds[st.Kind] {
+					sum.Counters["writes into a standard-library destination or a re-entrant writer/"+st.Kind]++
+				} else if st.Kind != "" {
 					sum.Counters["writes into a writer that also implements io."+map[string]string{"string": "StringWriter", "byte": "ByteWriter", "both": "StringWriter and io.ByteWriter", "readfrom": "ReaderFrom", "extras": "failing Flush/Sync/Close methods"}[st.Kind]]++
 				}
 			}
@@ -472,6 +478,30 @@ func c19Search() {
 		}
 		if mine() {
 			runEpisode(&C19Scenario{Module: src.Name, Start: "fresh", Steps: []C19Step{{K: -1, Shape: "short"}, {K: -1, Shape: "short"}}})
+		}
+		// Destinations that are real standard-library writers, healthy and failing,
+		// and a writer that asks the module for its text while it is being written.
+		if mine() {
+			runEpisode(&C19Scenario{Module: src.Name, Start: []string{"printed", "fresh"}[unit%2], Steps: []C19Step{
+				{K: -1, Kind: "osfile-ok"}, {K: -1, Kind: "osfile-closed"}, {K: -1, Kind: "osfile-rdonly"}, {K: -1, Kind: "osfile-devfull"}, {K: -1, Kind: "ospipe-closed"},
+				{K: -1, Kind: "osfile-ok"}, {K: -1, Kind: "discard"}, {K: -1, Kind: "bytesbuffer"}, {K: -1, Kind: "stringsbuilder"}, {K: -1, Kind: "iopipe"}, {K: -1, Kind: "bufio"}, {K: -1, Kind: "multi"}, {K: -1, Kind: "reentrant"}, {K: -1, Shape: "short"}}})
+		}
+		{
+			r := newRNG(derive(*flagSeed, "C19std/"+src.Name))
+			nstd := 2
+			if thorough {
+				nstd = 12
+			}
+			for e := 0; e < nstd && len(S) > 0; e++ {
+				sc := &C19Scenario{Module: src.Name, Start: []string{"printed", "printed", "fresh"}[r.intn(3)]}
+				for i := 0; i < episodeLen-1; i++ {
+					sc.Steps = append(sc.Steps, C19Step{K: r.intn(len(S) + 1), Shape: "short", Kind: []string{"iopipe", "bufio", "multi", "reentrant", "iopipe", "bufio"}[r.intn(6)], Err: []string{"", "", "cause-nil", "cause-other", "unwrap", "temporary"}[r.intn(6)]})
+				}
+				sc.Steps = append(sc.Steps, C19Step{K: -1, Shape: "short"})
+				if mine() {
+					runEpisode(sc)
+				}
+			}
 		}
 		full := thorough || len(S) <= 4096
 		shapes := []string{"short"}
